@@ -50,7 +50,8 @@ func (s *scanner) reset() {
 // an error state is returned if maxNestingDepth was exceeded, otherwise successState is returned.
 func (s *scanner) pushParseState(newParseState int, successState int) int {
 	s.parseState = append(s.parseState, newParseState)
-	if len(s.parseState) <= maxNestingDepth {
+	// The outermost value is at depth 0.
+	if len(s.parseState)-1 <= maxNestingDepth {
 		return successState
 	}
 	return scanError
